@@ -72,8 +72,37 @@ pub fn judge_text(text: &str) -> Result<Verdict, (String, String)> {
         if shown != text || b.as_deref() != Ok(text) {
             return Err(("not-verbatim".into(), format!("{text:?} is kept as {shown:?}")));
         }
+        // the text accepted by FileOptions::caps must reach the package verbatim as well; done for
+        // every accepted text with outer whitespace and for a 1-in-8 sample of the others
+        let outer_ws = text.starts_with(char::is_whitespace) || text.ends_with(char::is_whitespace);
+        if outer_ws || crate::engine::fnv1a(text.as_bytes()) % 8 == 0 {
+            match panics::catch(|| caps_through_builder(text)) {
+                Ok(Ok(Some(stored))) if stored == text => {}
+                Ok(Ok(stored)) => return Err(("not-verbatim".into(), format!("{text:?} given to FileOptions::caps is stored in the package as {stored:?}"))),
+                Ok(Err(e)) => return Err(("not-verbatim".into(), format!("{text:?} is accepted but a package carrying it cannot be built/read: {e}"))),
+                Err(p) => return Err(("panic".into(), format!("{text:?}: {p}"))),
+            }
+        }
     }
     Ok(verdict)
+}
+
+/// build a one-file package with this capability text and read the text back from the header
+fn caps_through_builder(text: &str) -> Result<Option<String>, String> {
+    let dir = crate::gen::builder::TempDir::new("c19");
+    let src = dir.0.join("f");
+    std::fs::write(&src, b"x").map_err(|e| e.to_string())?;
+    let pkg = rpm::PackageBuilder::new("c19", "1", "MIT", "noarch", "caps")
+        .compression(rpm::CompressionType::None)
+        .with_file(&src, rpm::FileOptions::new("/f").caps(text).map_err(|e| e.to_string())?)
+        .map_err(|e| e.to_string())?
+        .build()
+        .map_err(|e| e.to_string())?;
+    let mut w = Vec::new();
+    pkg.write(&mut w).map_err(|e| e.to_string())?;
+    let p = rpm::Package::parse(&mut &w[..]).map_err(|e| e.to_string())?;
+    let entries = p.metadata.get_file_entries().map_err(|e| e.to_string())?;
+    Ok(entries.first().and_then(|e| e.caps.clone()))
 }
 
 impl Property for C19 {
